@@ -92,7 +92,7 @@ func genCase(i int, r *rand.Rand) caseCfg {
 	c.Mode = modes[i%3]
 	c.Terminal = terminals[(i/3)%3]
 	c.Snapshot = snapKinds[(i/9+i)%3]
-	c.Nodes = 3 + r.Intn(2)
+	c.Nodes = []int{3, 4, 1, 3, 4, 3}[r.Intn(6)] // one in six: a cluster of a single primary that serves every slot
 	c.Window = []uint{1, 2, 8, 100}[r.Intn(4)]
 	c.Parallelism = []int{0, 0, 2, 5, 8}[r.Intn(5)]
 	c.Filter = r.Intn(2) == 0
@@ -128,6 +128,9 @@ func snapCase(i int, r *rand.Rand) caseCfg {
 	c.ReplaceTag = (i/4)%2 == 1
 	c.RdbParallel = []int{2, 3, 4, 8}[r.Intn(4)]
 	c.SnapKeys = 150 + r.Intn(250)
+	if c.Nodes < 3 {
+		c.Nodes = 3 // the straggler scenario needs other nodes to finish first
+	}
 	c.SlowNode = r.Intn(c.Nodes)
 	return c
 }
